@@ -15,7 +15,7 @@ def jobs(seed=0):
     QK = "(GK == 0 ? 1073479681ul : GK == 1 ? 1071513601ul : GK == 2 ? 1070727169ul : 1068236801ul)"
 
     def simple(name, entry, fn, contract, loopspec, timeout=600, solver="race", flags=None):
-        J.append(Job(name="q120." + name, props=["C10", "C11", "C18", "C15"], shape="S1", sources=SIMPLE, harness="q120_simple.c",
+        J.append(Job(name="q120." + name, props=["C10", "C11", "C18", "C15"] + (["C04"] if name == "add_bbb" else []), shape="S1", sources=SIMPLE, harness="q120_simple.c",
                      entry=entry, enforce=[(fn, contract)], loops={fn: {"count": 1, "loops": [dict(loopspec, id=0)]}},
                      cbmc_flags=["--no-signed-overflow-check"] + (flags or []), functions=[fn], timeout=timeout, solver=solver,
                      replay={"driver": "q120_simple", "fn": fn}))
@@ -46,7 +46,7 @@ def jobs(seed=0):
         for nn in (1, 2):
             if nm in ("c_from_b", "c_from_znx64"):
                 continue   # functional post undecided: equivalence of 64-bit divider circuits times out on both back ends (DESIGN 5/C10)
-            J.append(Job(name="q120.%s.s4.nn%d" % (nm, nn), props=["C10", "C15"], shape="S4", sources=SIMPLE, harness="q120_simple_s4.c",
+            J.append(Job(name="q120.%s.s4.nn%d" % (nm, nn), props=["C10", "C15"] + (["C04"] if nm == "b_from_znx64" else []), shape="S4", sources=SIMPLE, harness="q120_simple_s4.c",
                          entry="h_s4_" + nm, no_dfcc=True, defines={"NN": nn},
                          cbmc_flags=["--no-signed-overflow-check", "--unwind", str(8 * nn + 2), "--unwinding-assertions"],
                          functions=[fn], timeout=1500, solver="race", tier="quick" if nn == 1 else "thorough",
@@ -55,10 +55,14 @@ def jobs(seed=0):
                  entry="h_s5_b_to_znx128_boundary", no_dfcc=True, defines={"NN": 1},
                  cbmc_flags=["--no-signed-overflow-check", "--unwind", "14", "--unwinding-assertions"], functions=["q120_b_to_znx128_simple"],
                  timeout=600, bound_note="concrete boundary vectors (closed-term evaluation, not a proof)"))
-    J.append(Job(name="lemma.q120_integer_lemmas", props=["C10"], shape="S6", sources=[], harness="", entry="", kind="native",
+    J.append(Job(name="lemma.q120_integer_lemmas", props=["C10", "C04"], shape="S6", sources=[], harness="", entry="", kind="native",
                  native_cmd=["python3", "lemmas/q120_lemmas.py"], functions=[], timeout=900,
                  bound_note="z3 (z3-new 5.1 if present), linear integer arithmetic, constants read from the real q120_common.h"))
     J += bbc_jobs()
+    J += ntt_jobs(seed)
+    J.append(Job(name="ntt.tables_wf", props=["C04"], shape="S5", sources=[], harness="", entry="", kind="native",
+                 native_cmd=["tools/ntt_tables_check.sh"], functions=["q120_new_ntt_bb_precomp", "q120_new_intt_bb_precomp"], timeout=600,
+                 bound_note="closed-term evaluation of the real constructors on this machine for every n = 2..65536 (not a proof)"))
     return J
 
 
@@ -115,4 +119,76 @@ def bbc_jobs():
                  cbmc_flags=["--no-signed-overflow-check"], functions=["q120_vec_mat1col_product_bbc_ref"], timeout=1800, solver="race",
                  bound_note="every ell <= 10000 (loop contract), ghost accumulators; step and final functions replaced by their contracts"))
 '''
+    return J
+
+
+_ntt = None
+
+
+def ntt_tuples():
+    """S5: distinct level tuples of the real NTT/iNTT tables for n = 2^1..2^16 (native run of the constructors)"""
+    global _ntt
+    if _ntt is not None:
+        return _ntt
+    import subprocess, tempfile, os, re
+    from . import core
+    d = tempfile.mkdtemp()
+    exe = os.path.join(d, "qm")
+    _ntt = []
+    try:
+        subprocess.check_call(["gcc", "-O1", "-DNDEBUG", "-I" + core.SRC, os.path.join(core.VERIF, "lemmas", "q120_ntt_meta.c"),
+                               os.path.join(core.SRC, "q120", "q120_ntt.c"), os.path.join(core.SRC, "commons.c"),
+                               os.path.join(core.SRC, "commons_private.c"), "-lm", "-o", exe], stderr=subprocess.DEVNULL)
+        out = subprocess.check_output([exe], text=True)
+    except Exception:
+        return _ntt
+    levels = {}
+    red = {}
+    for l in out.splitlines():
+        m = re.match(r"LEVEL (\d+) (\d) (\d+) reduce=(\d) bs=(\d+) half_bs=(\d+) mask=(\d+) q2sh=(-?\d+)", l)
+        if m:
+            lg, inv, lv, rd, bs, hb, mask, q2 = map(int, m.groups())
+            levels.setdefault((lg, inv), []).append((lv, rd, bs, hb, q2))
+        m = re.match(r"RED (\d+) (\d) (\d+) (\d+)", l)
+        if m:
+            red[(int(m.group(1)), int(m.group(2)))] = int(m.group(3))
+    tuples = set()
+    for (lg, inv), lv in levels.items():
+        lv.sort()
+        rh = red[(lg, inv)]
+        # budget after a reduction: a forward reduce level (or the inverse level 0) has q2sh == bred - 30
+        bred = None
+        for (_, rd, bs, hb, q2) in lv:
+            if rd and ((not inv) or _ == 0):
+                bred = q2 + 30
+        if bred is None:
+            for key, l2 in levels.items():
+                for (i2, rd, bs, hb, q2) in l2:
+                    if rd and (key[1] == 0 or i2 == 0):
+                        bred = q2 + 30
+        prev = 64
+        nl = len(lv)
+        for (i, rd, bs, hb, q2) in lv:
+            if not inv:
+                kind, nnb = (0, 1) if i == 0 else (1, 2 if i == nl - 1 else 4)
+            else:
+                kind, nnb = (0, 1) if i == nl - 1 else (2, 2 if i == 0 else 4)
+            tuples.add((kind, nnb, rd, prev, bred or 48, hb, q2, bs, rh))
+            prev = bs
+    _ntt = sorted(tuples)
+    return _ntt
+
+
+def ntt_jobs(seed=0):
+    J = []
+    for (kind, nnb, rd, bin_, bred, hb, q2, bs, rh) in ntt_tuples():
+        for lane in range(4):
+            nm = "ntt.lane.k%d.nn%d.red%d.in%d.h%d.q%d.bs%d.lane%d" % (kind, nnb, rd, bin_, hb, q2 if q2 >= 0 else 99, bs, lane)
+            J.append(Job(name=nm, props=["C04", "C10"], shape="S4", sources=["q120/q120_ntt_avx2.c"], harness="ntt_lanes.c", entry="h_ntt_level",
+                         no_dfcc=True, avx=True,
+                         defines={"KIND": kind, "NNB": nnb, "RED": rd, "BIN": bin_, "BRED": bred, "HB": hb, "Q2SH": q2, "BS": bs, "RH": rh, "LANE": lane},
+                         cbmc_flags=["--unwind", "6", "--unwinding-assertions", "--no-signed-overflow-check", "--no-undefined-shift-check", "--object-bits", "10"],
+                         functions=["split_precompmul_si256", "modq_red", "ntt_iter", "ntt_iter_red", "intt_iter", "intt_iter_red", "ntt_iter_first", "ntt_iter_first_red"],
+                         timeout=1500, solver="kissat", tier="quick" if lane == seed % 4 else "thorough",
+                         bound_note="block of %d vectors (smallest the kernel accepts), lane %d, level tuple from the real tables: kind=%d reduce=%d in-budget=%d half_bs=%d q2bs=q<<%d bs=%d" % (nnb, lane, kind, rd, bin_, hb, q2, bs)))
     return J
